@@ -303,3 +303,97 @@ class MappingNewOid(Spec):
 
 
 SPECS.append(MappingNewOid)
+
+
+def _ms_read_setup(c):
+    n = fresh_name('revs')
+    tree = c.new_obj('tidtree', None, {'dom': z3.Array('dom_' + n, I, B), 'val': z3.Array('val_' + n, I, I)},
+                     {'name': 'revisions-of-the-oid'})
+    c.roles.array(c.obj(tree).f['dom'], 'tid')
+    data = c.new_obj('oidmap', None, {}, {'tree_ref': tree, 'name': '_data'})
+    lock = prims.new_lock(c, 'MappingStorage._lock', reentrant=True, held=0)
+    me = inst(c, MS, _data=data, _lock=lock, _opened=VBool(True))
+    c.ghost['ms'] = {'tree': tree, 'lock': lock}
+    return me
+
+
+class MappingGetTid(Spec):
+    """MappingStorage.getTid (C03 / C04; the serial `Connection.readCurrent` checks and DemoStorage hands on):
+    the tid of the object's NEWEST revision - a revision, and no revision is later; POSKeyError exactly when the
+    object has no revision (unknown oid or an emptied tree).  Nothing is modified."""
+    func = MS + '.getTid'
+    props = ('C03', 'C04')
+    assumptions = tuple(ASSUMPTIONS)
+
+    def setup(self, c, case=None):
+        return {'self': _ms_read_setup(c), 'oid': c.fresh_bytes(8, 'oid')}
+
+    def modifies(self, c, E):
+        return set()
+
+    def outcomes(self, c, E):
+        g = c.ghost['ms']
+        dom = c.obj(g['tree']).f['dom']
+        has = lambda t: z3.And(z3.Select(dom, t), t >= 0, t < 2 ** 64)
+        unknown = lambda cc: any(e[0] == 'oid-unknown' for e in cc.events)
+        free = lambda cc: [('lock-released', cc.obj(g['lock']).f['held'] == 0)]
+
+        def newest(cc, E, r):
+            if not (isinstance(r, VBytes) and r.conc_len() == 8):
+                return [('returns-a-tid', False)]
+            m = bytes_num(cc, r)
+            cc.roles.seed('tid', m)
+            return [('oid-is-known', not unknown(cc)),
+                    ('result-is-the-tid-of-a-revision', has(m)),
+                    ('no-revision-is-later', All(['tid'], lambda t: z3.Implies(has(t), t <= m)))] + free(cc)
+
+        def none(cc, E, x):
+            out = free(cc)
+            if not unknown(cc):
+                out.append(('POSKeyError-only-if-the-object-has-no-revision',
+                            All(['tid'], lambda t: z3.Not(has(t)))))
+            return out
+        return [Outcome('newest', post=newest, result=lambda cc, E: cc.fresh_bytes(8, 'tid')),
+                Outcome('no-revision', 'raise', POSKeyError, post=none)]
+
+
+class MappingLoadSerial(Spec):
+    """MappingStorage.loadSerial (C04): the data stored by the transaction named - exactly the revision whose tid
+    EQUALS the serial; POSKeyError exactly when the object has no revision with that tid.  Nothing is modified."""
+    func = MS + '.loadSerial'
+    props = ('C04',)
+    assumptions = tuple(ASSUMPTIONS)
+
+    def setup(self, c, case=None):
+        me = _ms_read_setup(c)
+        ser = c.fresh_bytes(8, 'serial')
+        c.roles.seed('tid', bytes_num(c, ser))
+        return {'self': me, 'oid': c.fresh_bytes(8, 'oid'), 'serial': ser}
+
+    def modifies(self, c, E):
+        return set()
+
+    def outcomes(self, c, E):
+        g = c.ghost['ms']
+        tf = c.obj(g['tree']).f
+        dom, val = tf['dom'], tf['val']
+        s = bytes_num(c, E['serial'])
+        unknown = lambda cc: any(e[0] == 'oid-unknown' for e in cc.events)
+        free = lambda cc: [('lock-released', cc.obj(g['lock']).f['held'] == 0)]
+
+        def found(cc, E, r):
+            return [('oid-is-known', not unknown(cc)),
+                    ('the-object-has-a-revision-with-that-tid', z3.Select(dom, s)),
+                    ('data-is-that-revisions-data', isinstance(r, VOpaque) and r.tag == 'data' and
+                     r.t == DATA(z3.Select(val, s)))] + free(cc)
+
+        def absent(cc, E, x):
+            out = free(cc)
+            if not unknown(cc):
+                out.append(('POSKeyError-only-if-no-revision-has-that-tid', z3.Not(z3.Select(dom, s))))
+            return out
+        return [Outcome('found', post=found, result=lambda cc, E: cc.fresh_opaque('data')),
+                Outcome('absent', 'raise', POSKeyError, post=absent)]
+
+
+SPECS += [MappingGetTid, MappingLoadSerial]
